@@ -99,7 +99,7 @@ Section Emit.
       destruct (g_indexAt (i_conns m) x) as [k|] eqn:Hix; [|exact Hskip].
       destruct (indexAt_get _ _ _ Hwf Hix) as (Hkx & c0 & Hc0).
       destruct (g_get (i_conns m) k) as [c|]; [|exact Hskip].
-      destruct (c_blocked c); [exact Hskip|].
+      destruct (c_blocked c || c_tbd c); [exact Hskip|].
       destruct (fire_once w i k c args Hw He) as (l1 & Hl1 & Hk1).
       pose proof (fire_ok R HR w i k c args Hw) as [Hw' L'].
       destruct (fire R w i k c args) as [w' [e|]] eqn:Hf; cbn [fst] in *.
@@ -293,15 +293,15 @@ Section Kept.
     - exfalso. exact (Hnd ev eq_refl).
   Qed.
 
-  Lemma walk_fires args : c_blocked c = false -> (forall e, c_kind c <> KDeferred e) ->
+  Lemma walk_fires args : c_blocked c = false -> c_tbd c = false -> (forall e, c_kind c <> KDeferred e) ->
     forall idxs w w', winv w -> emitting_in w i -> has_conn w -> In (gi_index k) idxs ->
     walk R w i args idxs = (w', None) ->
     exists l, w_trace w' = l ++ w_trace w /\ In k (dkeys i l).
   Proof.
-    intros Hub Hnd. induction idxs as [|x r IH]; intros w w' Hw He Hc Hin H; [destruct Hin|].
+    intros Hub Hut Hnd. induction idxs as [|x r IH]; intros w w' Hw He Hc Hin H; [destruct Hin|].
     cbn [walk] in H. pose proof Hc as (m & Hm & Hg). rewrite Hm in H. pose proof (Hw _ _ Hm) as (Hwf & _).
     destruct (Nat.eq_dec x (gi_index k)) as [->|Hx].
-    - rewrite (get_indexAt _ _ _ Hwf Hg), Hg, Hub in H.
+    - rewrite (get_indexAt _ _ _ Hwf Hg), Hg, Hub, Hut in H. cbn [orb] in H.
       destruct (fire_logs w args Hw He Hnd) as (l1 & Hl1 & Hk1).
       pose proof (fire_ok R HR w i k c args Hw) as [Hw1 _].
       destruct (fire R w i k c args) as [w1 [e|]] eqn:Hf; [discriminate H|]. cbn [fst] in *.
@@ -313,7 +313,7 @@ Section Kept.
       destruct (indexAt_get _ _ _ Hwf Hix) as (Hkx & _).
       assert (Hne : k' <> k) by (intros ->; exact (Hx (eq_sym Hkx))).
       destruct (g_get (i_conns m) k') as [c'|]; [|exact (IH w w' Hw He Hc Hin' H)].
-      destruct (c_blocked c'); [exact (IH w w' Hw He Hc Hin' H)|].
+      destruct (c_blocked c' || c_tbd c'); [exact (IH w w' Hw He Hc Hin' H)|].
       pose proof (fire_ok R HR w i k' c' args Hw) as [Hw1 L1].
       pose proof (fire_other_keeps w k' c' args Hw Hne Hc) as Hc1.
       destruct (fire R w i k' c' args) as [w1 [e|]] eqn:Hf; [discriminate H|]. cbn [fst] in *.
@@ -325,11 +325,11 @@ Section Kept.
 
   Theorem emit_exactly_once_if_kept w s args m w' :
     winv w -> lookup (w_sigs w) s = Some (Some i) -> get_impl w i = Some m -> i_emitting m = false ->
-    g_get (i_conns m) k = Some c -> c_blocked c = false -> (forall e, c_kind c <> KDeferred e) ->
+    g_get (i_conns m) k = Some c -> c_blocked c = false -> c_tbd c = false -> (forall e, c_kind c <> KDeferred e) ->
     sig_emit R w s args = (w', None) ->
     exists l, w_trace w' = l ++ w_trace w /\ In k (dkeys i l) /\ NoDup (dkeys i l).
   Proof.
-    intros Hw Hs Hm Hem Hg Hub Hnd H.
+    intros Hw Hs Hm Hem Hg Hub Hut Hnd H.
     destruct (emit_at_most_once R HR w s args i Hw Hs) as (l0 & Hl0 & Hn0). rewrite H in Hl0. cbn [fst] in Hl0.
     unfold sig_emit in H. rewrite Hs, Hm, Hem in H.
     set (m1 := impl_with_owner (impl_with_flags m true (i_dde m)) (i_owned m) true) in *.
@@ -342,7 +342,7 @@ Section Kept.
     { apply in_seq. split; [lia|]. cbn. unfold g_get in Hg. unfold g_size.
       destruct (nth_error (g_slots (i_conns m)) (gi_index k)) eqn:En; [|discriminate Hg]. apply nth_error_Some. congruence. }
     destruct (walk R w1 i args (seq 0 (g_size (i_conns m)))) as [w2 e] eqn:EW. inversion H; subst w' e.
-    destruct (walk_fires args Hub Hnd _ w1 w2 Hw1 He1 Hc1 Hin EW) as (l & Hl & Hk).
+    destruct (walk_fires args Hub Hut Hnd _ w1 w2 Hw1 He1 Hc1 Hin EW) as (l & Hl & Hk).
     exists l0. split; [exact Hl0|]. split; [|exact Hn0].
     rewrite trace_finish_emit, Hl in Hl0. change (w_trace w1) with (w_trace w) in Hl0.
     apply app_inv_tail in Hl0. subst l0. exact Hk.
@@ -424,7 +424,7 @@ Section Single.
     - pose proof Hs as (m & c & Hm & Hc & Hk). rewrite Hm. pose proof (Hw _ _ Hm) as (Hwf & _).
       destruct (g_indexAt (i_conns m) x) as [k'|] eqn:Hix; [|exact (IH w Hw He Hs)].
       destruct (g_get (i_conns m) k') as [c'|] eqn:Hc'; [|exact (IH w Hw He Hs)].
-      destruct (c_blocked c'); [exact (IH w Hw He Hs)|].
+      destruct (c_blocked c' || c_tbd c'); [exact (IH w Hw He Hs)|].
       pose proof (fire_ok R HR w i k' c' args Hw) as [Hw1 L1].
       destruct (fire_once R HR w i k' c' args Hw He) as (l1 & Hl1 & Hk1).
       assert (M1 : In k (dkeys i l1) -> marked_at (fst (fire R w i k' c' args))).
@@ -508,7 +508,7 @@ Proof. intros w sid Hw. split; [assumption|apply wle_on_refl]. Qed.
 
 Definition fire_events (i : nat) (args : list Z) (p : gidx * conn) : list event :=
   let '(k, c) := p in
-  if c_blocked c then [] else
+  if c_blocked c || c_tbd c then [] else
   match c_kind c with
   | KPlain => [EvSlot (Some (i, k)) true (c_label c) (adapt (c_arity c) (c_bound c) args)]
   | KReflective _ => [EvSlot (Some (i, k)) true (c_label c) args]
@@ -530,7 +530,7 @@ Qed.
 
 Lemma fire_quiet w i m x g c args :
   winv w -> get_impl w i = Some m -> i_emitting m = true ->
-  nth_error (g_slots (i_conns m)) x = Some (Some (g, c)) -> c_blocked c = false ->
+  nth_error (g_slots (i_conns m)) x = Some (Some (g, c)) -> c_blocked c = false -> c_tbd c = false ->
   (forall e, c_kind c = KDeferred e -> ev_alive w e = true) ->
   let k := {| gi_index := x; gi_gen := g |} in
   exists w1 m1, fire quietR w i k c args = (w1, None) /\
@@ -540,10 +540,10 @@ Lemma fire_quiet w i m x g c args :
     (forall y, y <> x -> nth_error (g_slots (i_conns m1)) y = nth_error (g_slots (i_conns m)) y) /\
     (forall e, ev_alive w1 e = ev_alive w e).
 Proof.
-  intros Hw Hm Hem Hs Hb Hdef k.
+  intros Hw Hm Hem Hs Hb Htb Hdef k.
   pose proof (Hw _ _ Hm) as (Hwf & _ & _ & Halv).
   assert (Hg : g_get (i_conns m) k = Some c) by (apply get_slot; cbn; assumption).
-  unfold fire, fire_events. rewrite Hb. destruct (c_kind c) eqn:Hk.
+  unfold fire, fire_events. rewrite Hb, Htb. cbn [orb]. destruct (c_kind c) eqn:Hk.
   - exists (log (EvSlot (Some (i, k)) true (c_label c) (adapt (c_arity c) (c_bound c) args)) w), m.
     repeat split; auto.
   - eexists _, m. split; [unfold invoke_slot, quietR; reflexivity|]. repeat split; auto.
@@ -588,13 +588,14 @@ Proof.
       { apply (indexAt_slot _ _ _ Hwf). exists c; cbn; auto. }
       assert (Hg : g_get (i_conns m) {| gi_index := x; gi_gen := g |} = Some c) by (apply get_slot; cbn; assumption).
       rewrite Hix, Hg. cbn [flat_map]. rewrite app_nil_r.
-      destruct (c_blocked c) eqn:Hb.
+      destruct (c_blocked c || c_tbd c) eqn:Hbt.
       * destruct (IH w m Hw Hm Hem Hr Hdef_r) as (w' & m' & Hwalk & Htr & Hm' & Hem' & Hlen).
         exists w', m'. split; [assumption|]. split; [|auto].
-        rewrite Htr. unfold fire_events at 2. rewrite Hb. reflexivity.
-      * assert (Hd1 : forall e, c_kind c = KDeferred e -> ev_alive w e = true).
+        rewrite Htr. unfold fire_events at 2. rewrite Hbt. reflexivity.
+      * apply orb_false_iff in Hbt. destruct Hbt as [Hb Htb].
+        assert (Hd1 : forall e, c_kind c = KDeferred e -> ev_alive w e = true).
         { intros e He. eapply (Hdef x g c e); [left; reflexivity|assumption|assumption|assumption]. }
-        destruct (fire_quiet w i m x g c args Hw Hm Hem Hs Hb Hd1) as (w1 & m1 & Hf & Ht1 & Hm1 & Hem1 & Hl1 & Ho1 & Ha1).
+        destruct (fire_quiet w i m x g c args Hw Hm Hem Hs Hb Htb Hd1) as (w1 & m1 & Hf & Ht1 & Hm1 & Hem1 & Hl1 & Ho1 & Ha1).
         rewrite Hf.
         assert (Hw1 : winv w1).
         { pose proof (fire_ok quietR quietR_good w i {| gi_index := x; gi_gen := g |} c args Hw) as [H _].
@@ -635,6 +636,12 @@ Proof.
   rewrite (live_slots _ (proj1 (Hw _ _ Hm))). reflexivity.
 Qed.
 
+(* fix F12: an entry whose disconnection was requested earlier in the emission (it is only marked) is skipped at its turn *)
+Lemma walk_marked_skipped R w i args x r m k c :
+  get_impl w i = Some m -> g_indexAt (i_conns m) x = Some k -> g_get (i_conns m) k = Some c -> c_tbd c = true ->
+  walk R w i args (x :: r) = walk R w i args r.
+Proof. intros Hm Hx Hg Ht. cbn [walk]. rewrite Hm, Hx, Hg, Ht, Bool.orb_true_r. reflexivity. Qed.
+
 (* sig_emit depends on the slot bodies only through their behaviour *)
 Lemma walk_ext R R' i args : (forall w sid, R w sid = R' w sid) ->
   forall idxs w, walk R w i args idxs = walk R' w i args idxs.
@@ -643,7 +650,7 @@ Proof.
   destruct (get_impl w i) as [m|]; [|reflexivity].
   destruct (g_indexAt (i_conns m) x) as [k|]; [|apply IH].
   destruct (g_get (i_conns m) k) as [c|]; [|apply IH].
-  destruct (c_blocked c); [apply IH|].
+  destruct (c_blocked c || c_tbd c); [apply IH|].
   assert (Hf : fire R w i k c args = fire R' w i k c args).
   { unfold fire, invoke_slot. destruct (c_kind c); try rewrite HRR; reflexivity. }
   rewrite Hf. destruct (fire R' w i k c args) as [w' [e|]]; [reflexivity|apply IH].
